@@ -7,11 +7,13 @@ import (
 	"fmt"
 	"os"
 	"path/filepath"
+	"reflect"
 	"runtime"
 	"sort"
 	"strconv"
 	"strings"
 	"sync"
+	"sync/atomic"
 	"testing"
 	"testing/synctest"
 	"time"
@@ -41,13 +43,34 @@ func (r *Rec) Log(name string, kv ...any) {
 	r.seq++
 	ev := Ev{"e": name, "seq": r.seq, "t": r.Now()}
 	for i := 0; i+1 < len(kv); i += 2 {
-		ev[kv[i].(string)] = kv[i+1]
+		v := kv[i+1]
+		if rv := reflect.ValueOf(v); rv.IsValid() && (rv.Kind() == reflect.Slice || rv.Kind() == reflect.Map) && rv.IsNil() {
+			v = []any{} // TLC's JSON reader has no null
+		} else if v == nil {
+			v = ""
+		}
+		ev[kv[i].(string)] = v
 	}
 	r.events = append(r.events, ev)
 	if r.sink != nil {
 		b, _ := json.Marshal(ev)
 		r.sink.Write(append(b, '\n'))
 	}
+}
+
+func (r *Rec) Len() int { r.mu.Lock(); defer r.mu.Unlock(); return len(r.events) }
+
+// CountWhere counts recorded events satisfying f.
+func (r *Rec) CountWhere(f func(Ev) bool) int {
+	r.mu.Lock()
+	defer r.mu.Unlock()
+	n := 0
+	for _, e := range r.events {
+		if f(e) {
+			n++
+		}
+	}
+	return n
 }
 
 // Out is the per-process output: one ndjson file holding all scenarios,
@@ -89,6 +112,7 @@ type Gates struct {
 	parked []*parked
 	rec    *Rec
 	logAll bool
+	pass   bool
 }
 type parked struct {
 	point string
@@ -109,9 +133,22 @@ func (g *Gates) Park(point string, on bool) { g.mu.Lock(); g.mode[point] = on; g
 
 var gateSeq int
 
+// Sleep advances virtual time with every gate open: a goroutine reaching a yield point while the
+// driver sleeps could not be scheduled against anything, it would only stay parked across time.
+func (g *Gates) Sleep(d time.Duration) {
+	g.mu.Lock()
+	g.pass = true
+	g.mu.Unlock()
+	time.Sleep(d)
+	synctest.Wait()
+	g.mu.Lock()
+	g.pass = false
+	g.mu.Unlock()
+}
+
 func (g *Gates) at(point string, id any) {
 	g.mu.Lock()
-	if !g.mode[point] {
+	if !g.mode[point] || g.pass {
 		g.mu.Unlock()
 		return
 	}
@@ -132,6 +169,22 @@ func idString(id any) string {
 	default:
 		return fmt.Sprintf("%p", id)
 	}
+}
+
+// StopParking switches every gate to pass-through.
+func (g *Gates) StopParking() {
+	g.mu.Lock()
+	for k := range g.mode {
+		g.mode[k] = false
+	}
+	g.mu.Unlock()
+}
+
+// ParkedTotal is the number of goroutines parked at any gate (callable from outside the bubble).
+func (g *Gates) ParkedTotal() int {
+	g.mu.Lock()
+	defer g.mu.Unlock()
+	return len(g.parked)
 }
 
 // Parked returns how many goroutines are parked at point (any id if id == nil).
@@ -183,12 +236,9 @@ func (g *Gates) ReleaseNth(point string, n int) bool {
 	return false
 }
 
-// ReleaseAll stops parking and releases everything (end of scenario).
+// ReleaseAll releases every parked goroutine (parking modes stay as they are).
 func (g *Gates) ReleaseAll() {
 	g.mu.Lock()
-	for k := range g.mode {
-		g.mode[k] = false
-	}
 	ps := g.parked
 	g.parked = nil
 	g.mu.Unlock()
@@ -221,16 +271,24 @@ func RunScenario(t *testing.T, out *Out, idx int, sc Scenario, wallBudget time.D
 	hdr, _ := json.Marshal(Ev{"e": "reset", "scn": sc.Name, "idx": idx, "seq": 0, "t": 0})
 	out.f.Write(append(hdr, '\n'))
 	done := make(chan struct{})
+	var curGates atomic.Pointer[Gates]
 	go func() { // outside the bubble: real time
 		select {
 		case <-done:
 		case <-time.After(wallBudget):
-			b, _ := json.Marshal(Ev{"e": "wedged", "scn": sc.Name, "idx": idx, "seq": 1 << 30, "t": 0})
+			// A goroutine parked at a gate may hold a lock another goroutine needs; a goroutine blocked on a
+			// sync.Mutex is not durably blocked, so the bubble can neither quiesce nor advance its clock.
+			// That is an artefact of parking, not a deadlock of the code: recorded as "stall" (no verdict).
+			kind := "wedged"
+			if g := curGates.Load(); g != nil && g.ParkedTotal() > 0 {
+				kind = "stall"
+			}
+			b, _ := json.Marshal(Ev{"e": kind, "scn": sc.Name, "idx": idx, "seq": 1 << 30, "t": 0})
 			out.f.Write(append(b, '\n'))
 			buf := make([]byte, 1<<20)
 			n := runtime.Stack(buf, true)
 			os.WriteFile(filepath.Join(out.dir, "wedge-"+strconv.Itoa(idx)+".stacks"), buf[:n], 0o644)
-			out.Count("wedged", 1)
+			out.Count(kind, 1)
 			out.Close(os.Getenv("VERIF_FAMILY"))
 			os.Exit(ExitWedged)
 		}
@@ -253,9 +311,11 @@ func RunScenario(t *testing.T, out *Out, idx int, sc Scenario, wallBudget time.D
 		synctest.Test(t, func(t *testing.T) {
 			rec.start = time.Now()
 			g := NewGates(rec)
+			curGates.Store(g)
 			g.Install()
 			defer g.Uninstall()
 			sc.Run(t, rec, g)
+			g.StopParking()
 			g.ReleaseAll()
 			synctest.Wait()
 			rec.Log("end")
